@@ -130,6 +130,79 @@ def install(it):
         c &= 0xFFFFFFFF
         return c + 32 if 65 <= c <= 90 else c
     reg('tolower', tolower)
+    def sprintf(it, a):
+        """sprintf(buf, fmt, ...) for the integer and floating directives the repository uses. The number of characters written is an
+        expression in the (possibly symbolic) arguments; the solver decides whether it can exceed the room left in the destination
+        object (then the path is an out-of-bounds report carrying the path condition)."""
+        import re as _re
+        dst, fmt = a[0], it.read_cstring(a[1]).decode('latin-1')
+        vals = list(a[2:])
+        r_, off = it.region_of(dst, 1, 'store')
+        room = r_.size - off
+        total = S.iconst(0, 64); fixed = 0
+        pieces = []
+        pos = 0
+        for m_ in _re.finditer(r'%([-+ 0#]*)(\d*)(?:\.(\d+))?(l|ll|z|h|hh)?([diuxXeEfgGsc%])', fmt):
+            lit = fmt[pos:m_.start()]; fixed += len(lit); pieces.append(('lit', lit)); pos = m_.end()
+            flags, width, prec, lm, conv = m_.groups()
+            width = int(width) if width else 0
+            if conv == '%':
+                fixed += 1; pieces.append(('lit', '%')); continue
+            if not vals: raise Unsupported('sprintf: missing argument')
+            v = vals.pop(0)
+            if conv in 'diu':
+                bits = 64 if lm in ('l', 'll', 'z') else 32
+                signed = conv in 'di'
+                if type(v) is int:
+                    x = v & ((1 << bits) - 1)
+                    if signed and x >> (bits - 1): x -= 1 << bits
+                    txt = ('%' + flags + (str(width) if width else '') + 'd') % x
+                    fixed += len(txt); pieces.append(('lit', txt)); continue
+                if type(v) is not Node or v.sort != 'I': raise Unsupported('sprintf: integer directive with a non-integer argument')
+                # v is an unsigned bits-wide pattern; as a signed number it is negative when >= 2^(bits-1)
+                half = S.iconst(1 << (bits - 1), 64)
+                neg_ = S.cmp('ge', v, half) if (signed and (v.hi is None or v.hi >= (1 << (bits - 1)))) else S.FALSE
+                mag = v if neg_ is S.FALSE else S.ite(neg_, S.isub(S.iconst(1 << bits, 64), v, 64), v)
+                ln = S.iconst(1, 64) if neg_ is S.FALSE else S.ite(neg_, S.iconst(2, 64), S.iconst(1, 64))
+                for k in range(1, 20):
+                    if neg_ is S.FALSE and v.hi is not None and v.hi < 10 ** k: break
+                    if 10 ** k > (1 << bits): break
+                    ln = S.iadd(ln, S.ite(S.cmp('ge', mag, S.iconst(10 ** k, 64)), S.iconst(1, 64), S.iconst(0, 64)), 64)
+                if width:
+                    ln = S.ite(S.cmp('lt', ln, S.iconst(width, 64)), S.iconst(width, 64), ln)
+                total = S.iadd(total, ln, 64); pieces.append(('int', v, flags, width)); continue
+            if conv in 'eE' and type(v) is Node:
+                # any double: [-]d.ddde[+-]dd(d), or [-]inf / [-]nan -- at most precision + 8 characters (7 without the point), all reachable
+                pr = int(prec) if prec is not None else 6
+                n_ = max(width, pr + 8 if (pr or '#' in flags) else 7)
+                fixed += n_; pieces.append(('lit', ('-1.' + '0' * pr + 'e-100')[:n_].ljust(n_, '0'))); continue
+            if conv in 'eEfgG':
+                if type(v) is not float: raise Unsupported('sprintf: floating directive with a symbolic argument')
+                txt = ('%' + flags + (str(width) if width else '') + ('.' + prec if prec is not None else '') + conv) % v
+                fixed += len(txt); pieces.append(('lit', txt)); continue
+            raise Unsupported('sprintf: directive %%%s' % conv)
+        lit = fmt[pos:]; fixed += len(lit); pieces.append(('lit', lit))
+        need = S.iadd(total, S.iconst(fixed + 1, 64), 64)        # characters + terminating NUL
+        if type(need) is Node and need.op != 'iconst':
+            fits = S.cmp('le', need, S.iconst(room, 64))
+            if not it.decide(fits):
+                raise MemoryError_('out-of-bounds', 'sprintf("%s") can write more than the %d bytes left in %s region %s of size %d' % (fmt, room, r_.kind, r_.name, r_.size), it.where())
+        else:
+            nn = need.args[0] if type(need) is Node else need
+            if nn > room:
+                raise MemoryError_('out-of-bounds', 'sprintf("%s") writes %d bytes into the %d bytes left in %s region %s of size %d' % (fmt, nn, room, r_.kind, r_.name, r_.size), it.where())
+        # contents: a witness value of every symbolic argument (the text is not part of any claim)
+        out = ''
+        for pc_ in pieces:
+            if pc_[0] == 'lit': out += pc_[1]
+            else:
+                w = it.pathctl.witness_value(pc_[1]) if it.pathctl is not None else None
+                out += ('%' + pc_[2] + (str(pc_[3]) if pc_[3] else '') + 'd') % (w if w is not None else 0)
+        out = out.encode('latin-1')[:max(room - 1, 0)]
+        for i_, b_ in enumerate(out): it.store(dst + i_, 1, b_)
+        it.store(dst + len(out), 1, 0)
+        return len(out)
+    reg('sprintf', sprintf)
     def toupper(it, a):
         c = a[0]
         if type(c) is not int: raise Unsupported('toupper of a symbolic character')
